@@ -4,7 +4,8 @@ Model: coq/theories/HCM/{Model,Load,Periodic}.v (hand-written).  Tie: correspond
 model and the real FKMNonlinearDetector (an integer-valued law object is injected so that every float operation is exact),
 on exhaustive small alphabets, random sequences and forced junction configurations.  On EVERY run the property's own relation
 (pass-2 records of the implementation = steady_cycles of the sequence, Memory 3 only in pass 1 and symmetric, refinement by
-non-reversal samples, stationarity of a third pass) is evaluated on the implementation: that is the failing-input search.
+non-reversal samples, stationarity of a third pass, length of a trailing plateau irrelevant) is evaluated on the implementation:
+that is the failing-input search.
 Known finding: the junction defect outside the class `z and p` (DESIGN 6/C04)."""
 import json
 import os
@@ -17,6 +18,7 @@ import hcm
 WHAT = 'second-pass hystereses are not the closed cycles of the repeated sequence'
 WHAT_REFINE = 'non-reversal samples change what the second pass counts'
 WHAT_STATIONARY = 'a third pass does not repeat the second pass'
+WHAT_DWELL = 'repeated samples at the end of the sequence change what is counted'
 
 MANIFEST = dict(
     text='Theorems (props/C04.v) about a hand-written Gallina model of FKMNonlinearDetector (process_hcm_first/second, process, '
@@ -34,7 +36,11 @@ MANIFEST = dict(
          'loads, |loads| and extents lying within a small error of a grid c*level decide like the integer comparison of the levels, so the integer '
          'model also speaks about float inputs whose extreme loads / extents tie only up to rounding; these are generated on every run '
          '(levels scaled by c, each occurrence moved by a few ulps, error budget checked in exact rational arithmetic) and the detector must '
-         'record what the model records for the levels.',
+         'record what the model records for the levels. Repeated samples: squeeze_insensitive (unbounded, every number of passes) -- two '
+         'sequences with the same samples up to repetition and the same flush decision of the first pass have the same records and HCM memory; '
+         'dwell_insensitive (unbounded) -- the length of a trailing plateau of two or more samples is irrelevant. On every run blocks ending '
+         'in a plateau of 2 and of L = 3..130 samples (and long monotone runs, leading / interior plateaus) go through the correspondence, and the '
+         'implementation must count the two plateau lengths alike (one and three assessment points).',
     note=common.TB_NOTE + 'all C04 theorems are closed under the global context (no axioms). The model is hand-written: the correspondence harness, '
          'the injected integer-valued law object and the Python search oracle (tied to HCM/Periodic.v by vm_compute each run) are trusted; '
          'loads are integers in the model (exact on doubles); the 1e-12 tolerances of the code are exercised by float inputs with ulp-level '
@@ -116,6 +122,9 @@ def run(res):
     res.cov['rule'] = ('exhaustive: every sequence over a small symmetric alphabet up to a length bound; random: length 2..40, alphabets {-k..k} k in 2..40, '
                        'plateaus / intermediate points / repeated extremes / nested envelopes, each also rewritten into a forced junction configuration '
                        '(last between 0 and first, trailing / leading plateau, last passing an older reversal, zero ends, last = first); '
+                       'long stretches without a turning point (own generator derived from the seed): blocks of the pool ending in a plateau of 2 and of L samples, '
+                       'L in 3..130 (pairs: the two must be counted alike; half of them also at three assessment points), leading / interior plateaus, long monotone '
+                       'runs in the interior and at the end, run-then-plateau, intermediate-point-then-plateau, all through the correspondence and the relation; '
                        'near-tie float inputs: level sequences from the same pool (half with the largest |level| attained at least twice) scaled by c in '
                        '{1e-3..7.3} and perturbed by -2..2 ulps per run of equal levels (modes random / growing / shrinking / late-extreme), counted '
                        'non-trivial when in the class and at least one level occurs with two different float values; '
@@ -142,6 +151,10 @@ def run(res):
         t = hcm.make_in_class(rng, s)
         if t is not None and rng.random() < 0.5:
             seqs.append(t)
+    dwell_pairs, dwell_cov = dwell_cases(res, seqs, 140 if quick else (1500 if common.NCPU >= 8 else 600))
+    for ref, dw, _ in dwell_pairs:
+        seqs += [ref, dw]
+    seqs += dwell_cov.pop('_singles')
     seen, uniq = set(), []
     for s in seqs:
         k = tuple(s)
@@ -171,6 +184,11 @@ def run(res):
     res.oblige('correspondence: load model = implementation (loads_min, loads_max, is_closed_hysteresis, run_index of every row) and search oracle = Coq specification on %d sequences' % len(terms),
                not bad, 'disagreeing sequences: %s\n%s' % ([seqs[owner[j]] for j in bad[:6]], log[-1200:]))
     res.cov['correspondence_disagreements'] = len(bad)
+
+    res.cov.setdefault('timing_s', []).append(round(time.time() - res.t0, 1))
+    # ---- D2a: the length of a trailing plateau (dwell) does not change what is counted (theorem dwell_insensitive for the model;
+    # here on the implementation, one and three assessment points)
+    dwell_stage(res, dwell_pairs, dwell_cov, dict((tuple(s), o) for s, o in zip(seqs, outs)), quick)
 
     res.cov.setdefault('timing_s', []).append(round(time.time() - res.t0, 1))
     # ---- D2: the property's relation on the implementation, every case
@@ -276,6 +294,115 @@ def run(res):
     res.cov.setdefault('timing_s', []).append(round(time.time() - res.t0, 1))
     # ---- E: known findings
     res.replay_known(lambda e: hcm.c04_relation(e['witness']['sequence'], hcm.impl_run(e['witness']['sequence'])[0]) is not None)
+
+
+def dwell_cases(res, seqs, n):
+    """Inputs with long stretches without a turning point.  Pairs (reference, dwell, L): a block of the generated pool ending in a
+    plateau of 2 resp. L samples (L in hcm.DWELL_LENGTHS, 3..130); singles: leading / interior plateaus, long monotone runs in the
+    interior and at the end, run-then-plateau, intermediate-point-then-plateau.  The random choices come from a generator derived
+    from VERIF_SEED (not res.rng itself: the streams of the older stages stay what they were)."""
+    import random
+    rng = random.Random('C04-dwell-%s' % res.seed)
+    hand = [[3, -2, 5, -4, 6, -6], [4, -1, -4], [2, -1, 1, -2, 3, 1], [-1, 6, -3, 5, 0, -6], [1, -2, 2, -1]]
+    pool = [s for s in seqs if len(s) <= 16]
+    rng.shuffle(pool)
+    pairs, singles, kinds, hist = [], [], {}, {}
+    for b in hand + pool[:n]:
+        for _ in range(2 if b in hand else 1):
+            L = rng.choice(hcm.DWELL_LENGTHS)
+            ref, dw = hcm.dwell_pair(b, L)
+            if len(set(ref)) >= 2:
+                pairs.append((ref, dw, L))
+                hist[L] = hist.get(L, 0) + 1
+    for b in pool[n:n + (2 * n) // 3]:
+        k, s = rng.choice(hcm.dwell_variants(rng, b))
+        kinds[k] = kinds.get(k, 0) + 1
+        singles.append(s)
+    return pairs, {'_singles': singles, 'pairs': len(pairs), 'plateau_length_histogram': dict(sorted(hist.items())), 'other_long_stretches': kinds}
+
+
+def dwell_stage(res, pairs, cov, outs, quick):
+    n_rev, n_viol, nontriv, failing, reported = 0, 0, set(), [], set()
+    for ref, dw, L in pairs:
+        o1, o2 = outs.get(tuple(ref)), outs.get(tuple(dw))
+        if o1 is None or o2 is None or o1[0] != 'ok' or o2[0] != 'ok':
+            continue
+        rev = hcm.dwell_is_periodic_reversal(dw)
+        n_rev += rev
+        if rev and L >= 8 and hcm.pass2_rows(o2[1][0]):
+            nontriv.add(tuple(dw))
+        why = hcm.dwell_relation(o1[1][0], o2[1][0])
+        if why:
+            failing.append((hcm.c04_relation(ref, o1[1][0]) is not None, len(ref), ref, dw, L, why))
+    # report first the pairs whose reference (plateau of 2 samples) is counted correctly (= steady-state cycles): then the failure cannot be
+    # an instance of the junction findings; shortest first
+    for ref_wrong, _, ref, dw, L, why in sorted(failing)[:8]:
+        if n_viol >= 3:
+            break
+        ref, dw, L = shrink_dwell(ref, L, keep_reference_correct=not ref_wrong)
+        if tuple(dw) in reported:
+            continue
+        reported.add(tuple(dw))
+        n_viol += 1
+        r1, r2 = hcm.impl_run(ref)[0], hcm.impl_run(dw)[0]
+        res.violation(WHAT_DWELL, sequence=dw, reference=ref, plateau_length=L, detail=hcm.dwell_relation(r1, r2) or why,
+                      observed_pass2=hcm.pass2_rows(r2), observed_pass2_reference=hcm.pass2_rows(r1), steady_cycles=hcm.steady_cycles(dw),
+                      reference_is_counted_correctly=hcm.c04_relation(ref, r1) is None,
+                      plateau_is_reversal_of_repeated_sequence=hcm.dwell_is_periodic_reversal(dw), failing_pairs_in_this_run=len(failing))
+    # several assessment points (loads 1 : 3 : 2): the load columns of every point must not depend on the length of the dwell either
+    multi = [p for p in pairs if hcm.dwell_is_periodic_reversal(p[1])][:25 if quick else 150]
+    om = hcm.pmap(hcm._w_multi3, [x for ref, dw, _ in multi for x in (ref, dw)])
+    n_multi = 0
+    for k, (ref, dw, L) in enumerate(multi):
+        a, b = om[2 * k], om[2 * k + 1]
+        if a[0] != 'ok' or b[0] != 'ok':
+            if (a[0] == 'ok') != (b[0] == 'ok'):
+                res.violation(WHAT_DWELL, sequence=dw, reference=ref, plateau_length=L, assessment_points=3, detail='detector raises for one of the two: %s / %s' % (a[1], b[1]))
+            continue
+        n_multi += 1
+        for j in range(3):
+            why = hcm.dwell_relation(a[1][0][j], b[1][0][j])
+            if why and n_viol < 5:
+                n_viol += 1
+                res.violation(WHAT_DWELL, sequence=dw, reference=ref, plateau_length=L, assessment_points=3, point=j, detail=why,
+                              observed_pass2=hcm.pass2_rows(b[1][0][j]), observed_pass2_reference=hcm.pass2_rows(a[1][0][j]))
+                break
+    res.add_cases(len(pairs) + 2 * n_multi, nontrivial=len(nontriv))
+    cov = dict(cov)
+    cov.update({'plateau_is_reversal_of_repeated_sequence': n_rev, 'nontrivial_rule': 'plateau of >= 8 samples that is a reversal of the repeated sequence, '
+                'second pass records something (distinct sequences)', 'nontrivial': len(nontriv), 'three_point_pairs': n_multi})
+    res.cov['dwell_inputs'] = cov
+    for ref, dw, L in pairs[5:7]:
+        res.sample({'block': hcm.strip_trailing_run(dw), 'trailing_plateau_length': L, 'plateau_is_reversal': hcm.dwell_is_periodic_reversal(dw)})
+
+
+def shrink_dwell(ref, L, keep_reference_correct=False):
+    """Greedy minimisation of a failing dwell pair: drop samples of the block, then shorten the plateau (optionally only while the
+    reference with the plateau of 2 samples is still counted correctly)."""
+    def fails(b, L):
+        if len(set(b)) < 2:
+            return False
+        r, d = hcm.dwell_pair(b, L)
+        try:
+            r1 = hcm.impl_run(r)[0]
+            if keep_reference_correct and hcm.c04_relation(r, r1) is not None:
+                return False
+            return hcm.dwell_relation(r1, hcm.impl_run(d)[0]) is not None
+        except Exception:
+            return False
+    b = hcm.strip_trailing_run(ref)
+    changed = True
+    while changed and len(b) > 2:
+        changed = False
+        for i in range(len(b)):
+            t = hcm.strip_trailing_run(b[:i] + b[i + 1:])
+            if fails(t, L):
+                b, changed = t, True
+                break
+    while L > 3 and fails(b, L - 1):
+        L -= 1
+    r, d = hcm.dwell_pair(b, L)
+    return r, d, L
 
 
 def near_tie_cases(rng, seqs, n):
@@ -453,7 +580,16 @@ def replay(res, rp):
         res.oblige('replayed input satisfies the property', not why or not new)
     elif 'sequence' in v:
         s = [int(x) for x in v['sequence']]
-        if 'refined' in v:
+        if 'reference' in v:
+            ref = [int(x) for x in v['reference']]
+            if v.get('assessment_points'):
+                a, b = hcm.impl_run_multi(ref, [1, 3, 2])[0], hcm.impl_run_multi(s, [1, 3, 2])[0]
+                why = next((w for w in (hcm.dwell_relation(x, y) for x, y in zip(a, b)) if w), None)
+            else:
+                r1, r2 = hcm.impl_run(ref)[0], hcm.impl_run(s)[0]
+                why = hcm.dwell_relation(r1, r2)
+                print('replay: pass-2 rows with a plateau of 2 samples', hcm.pass2_rows(r1), 'with the long plateau', hcm.pass2_rows(r2), 'steady cycles', hcm.steady_cycles(s))
+        elif 'refined' in v:
             t = [int(x) for x in v['refined']]
             a = sorted((r[0], r[1], r[2]) for r in hcm.load_rows(hcm.impl_run(s)[0]) if r[3] == 2)
             b = sorted((r[0], r[1], r[2]) for r in hcm.load_rows(hcm.impl_run(t)[0]) if r[3] == 2)
